@@ -34,23 +34,27 @@ PAD = "x" * 1000
 
 
 def hidden(tier):
-    """The hidden-input settings of the runs.  `via`: the working directory is entered by its real name or
+    """The hidden-input settings of the runs.  `pre`: what an earlier run left where the outputs go (nothing /
+    the same files / longer files / shorter files / a symbolic link to a longer file / a read-only longer
+    file); `via`: the working directory is entered by its real name or
     through a symbolic link; `pwd`: what $PWD says (real / link / dotdot = link/../link / garbage / unset);
     the other variables are everything a libc or Filename call of the tools may consult."""
-    h = [dict(name="plain", via="real", pwd="real", env={"LC_ALL": "C", "TZ": "UTC"}),
-         dict(name="seed1", seed="1", via="link", pwd="link",
+    h = [dict(name="plain", via="real", pwd="real", pre="none", env={"LC_ALL": "C", "TZ": "UTC"}),
+         dict(name="seed1", seed="1", via="link", pwd="link", pre="longer",
               env={"LC_ALL": "C.utf8", "LC_NUMERIC": "C.utf8", "TZ": "Asia/Kolkata", "VERIF_PAD1": PAD * 4,
                    "TMPDIR": "/nonexistent/tmp", "OLDPWD": "/"}),
-         dict(name="seed2", seed="2", setarch=True, via="real", pwd="unset", unset=["OLDPWD", "HOME"],
+         dict(name="seed2", seed="2", setarch=True, via="real", pwd="unset", pre="shorter", unset=["OLDPWD", "HOME"],
               env={"LC_ALL": "de_DE.UTF-8", "LC_NUMERIC": "de_DE.UTF-8", "LANG": "de_DE.UTF-8",
                    "TZ": "America/St_Johns", "XDG_DATA_HOME": "/nonexistent/x"}),
-         dict(name="rev", seed="rev", via="link", pwd="garbage",
+         dict(name="rev", seed="rev", via="link", pwd="garbage", pre="symlink",
               env={"LC_ALL": "POSIX", "TZ": "Pacific/Chatham", "POSIXLY_CORRECT": "1", "HOME": "/nonexistent",
                    "PANDA_ROOT": "/nonexistent/root", "VERIF_PAD1": PAD * 30, "VERIF_PAD2": PAD * 30}),
-         dict(name="seed3", seed="3", setarch=True, via="link", pwd="dotdot",
+         dict(name="seed3", seed="3", setarch=True, via="link", pwd="dotdot", pre="readonly",
               env={"LANG": "fr_FR", "LC_NUMERIC": "POSIX", "TZ": "", "TMPDIR": ".", "CWD": "/"}),
-         dict(name="seed4", seed="4", via="real", pwd="link",
-              env={"LC_ALL": "tr_TR.ISO-8859-9", "VERIF_PAD1": PAD * 100})]
+         dict(name="seed4", seed="4", via="real", pwd="link", pre="same",
+              env={"LC_ALL": "tr_TR.ISO-8859-9", "VERIF_PAD1": PAD * 100}),
+         # glibc's own allocator, every block mmap()ed: another way to permute addresses
+         dict(name="mmap", via="real", pwd="real", pre="longer", env={"MALLOC_MMAP_THRESHOLD_": "0", "LC_ALL": "C"})]
     if tier == "thorough":
         h += [dict(name="seed%d" % s, seed=str(s), setarch=bool(s % 2), via=("link", "real")[s % 2],
                    pwd=("real", "dotdot", "link", "unset")[s % 4], env={"LC_ALL": "C"}) for s in (5, 6, 7, 8)]
@@ -58,7 +62,7 @@ def hidden(tier):
 
 
 def n_runs(backend, tier):
-    return {"-python-native": 6, "-python": 4, "-c": 4}[backend] + (4 if tier == "thorough" else 0)
+    return {"-python-native": 7, "-python": 4, "-c": 4}[backend] + (4 if tier == "thorough" else 0)
 
 
 # ---------------------------------------------------------------------------------------------
@@ -97,6 +101,14 @@ PUBLISHED:
 class D : public B {
 PUBLISHED:
   D();
+};
+class H%(k)d {
+PUBLISHED:
+  H%(k)d();
+  operator bool () const;
+  bool __bool__();
+  size_t get_hash() const;
+  size_t __hash__();
 };
 #include "ext%(k)d.h"
 namespace ns%(k)d {
@@ -265,15 +277,56 @@ def strip_ident(kind, data):
     return None, data
 
 
+JUNK = b"/* left over from an earlier, longer output */\n" * 1400
+
+
+def prepare(d, names, pre):
+    """Put the files an earlier run may have left in place of the outputs `names` of directory d."""
+    if pre == "same":
+        return
+    for f in names:
+        p = os.path.join(d, f)
+        old = b""
+        if os.path.lexists(p):
+            try:
+                old = open(p, "rb").read()
+            except OSError:
+                pass
+            os.chmod(p, 0o644) if not os.path.islink(p) else None
+            os.unlink(p)
+        t = os.path.join(d, "tgt-" + f)
+        if os.path.lexists(t):
+            os.unlink(t)
+        if pre in ("longer", "readonly"):
+            open(p, "wb").write(old + JUNK)
+            if pre == "readonly" and os.geteuid() == 0:      # (only root can still write it)
+                os.chmod(p, 0o444)
+        elif pre == "shorter":
+            open(p, "wb").write(b"/* short */")
+        elif pre == "symlink":
+            open(t, "wb").write(old + JUNK)
+            os.symlink("tgt-" + f, p)
+
+
+def c_atoi(s):
+    m = re.match(r"\s*([+-]?\d+)", s)
+    v = int(m.group(1)) if m else 0
+    v = max(-2 ** 63, min(2 ** 63 - 1, v)) & 0xffffffff
+    return v - 2 ** 32 if v >= 2 ** 31 else v
+
+
+EXTRA_EPOCHS = ["0", "1", "99999999999", "abc", "-5", " 12x"]
+
+
 def link_of(d):
     return d + "-ln"
 
 
 def tool_run(tool, args, d, h, shuf, trace=None, epoch=EPOCH):
     """Run a tool in directory d (real path; link_of(d) is a symbolic link to it) under hidden input h."""
-    env = {"SOURCE_DATE_EPOCH": epoch} if epoch else {}
+    env = {"SOURCE_DATE_EPOCH": epoch} if epoch is not None else {}
     unset = ["LC_ALL", "LC_NUMERIC", "LANG", "TZ", "POSIXLY_CORRECT", "TMPDIR", "PANDA_ROOT", "CWD"] + h.get("unset", [])
-    if not epoch:
+    if epoch is None:
         unset.append("SOURCE_DATE_EPOCH")
     env.update(h.get("env", {}))
     cwd = link_of(d) if h.get("via") == "link" else d
@@ -314,10 +367,27 @@ def lib_job(a):
         args = base + [be, "-oc", files["oc"], "-od", files["od"], "-oh", files["oh"], "lib%d.h" % k]
         n = n_runs(be, tier)
         first = None
+
+        def extra_epoch(h, pre):
+            # an unusual but set SOURCE_DATE_EPOCH: run before and after the runs below (>= 1 s apart)
+            prepare(d, files.values(), pre)
+            ep = EXTRA_EPOCHS[k % len(EXTRA_EPOCHS)]
+            r = tool_run("interrogate", args, d, h, shuf, epoch=ep)
+            res["n"] += 1
+            data = {}
+            for x, f in files.items():
+                try:
+                    data[x] = open(os.path.join(d, f), "rb").read()
+                except OSError:
+                    data[x] = None
+            return dict(be=be, epoch=ep, h=h["name"], rc=r.rc, sha={x: hashlib.sha256(v or b"").hexdigest() for x, v in data.items()},
+                        ident={x: strip_ident(x, v)[0] for x, v in data.items()})
+        xa = extra_epoch(hid[0], "none")
         for ri in range(n):
             h = hid[ri % len(hid)]
             if ri == n - 1:
                 time.sleep(1.05)          # the last run is at least a second after the first
+            prepare(d, files.values(), "none" if ri == 0 else h.get("pre", "none"))
             tr = os.path.join(d, "%s-%d.trace" % (tag, ri)) if be == "-python-native" else None
             r = tool_run("interrogate", args, d, h, shuf, trace=tr)
             res["n"] += 1
@@ -339,6 +409,8 @@ def lib_job(a):
                         shutil.copy(os.path.join(d, f), os.path.join(d, keep))
                         rec.setdefault("differs", {})[x] = ("first-" + f, keep)
             res["runs"].append(rec)
+        res.setdefault("extra", []).append((xa, extra_epoch(hid[1], "longer")))
+        prepare(d, files.values(), "none")
         # the same outputs named by absolute paths (another argument list: compared among themselves)
         if be == "-python-native":
             aargs = base + [be, "-oc", os.path.join(d, "abs-" + files["oc"]), "-od", os.path.join(d, "abs-" + files["od"]),
@@ -354,7 +426,8 @@ def lib_job(a):
         for ri, h in enumerate((hid[1], hid[3])):
             if ri:
                 time.sleep(1.05)
-            r = tool_run("interrogate", args, d, h, shuf, epoch=None)
+            # (an EMPTY SOURCE_DATE_EPOCH counts as unset)
+            r = tool_run("interrogate", args, d, h, shuf, epoch=("" if ri else None))
             res["n"] += 1
             data = {}
             for x, f in files.items():
@@ -372,7 +445,8 @@ def lib_job(a):
             margs = ["-oc", "%s_module.cxx" % tag, "-module", "vm", "-library", "vm", be, files["od"]]
             shas = []
             for ri in range(3):
-                h = hid[(ri * 2 + 1) % len(hid)]
+                h = hid[(ri * 2 + 1) % 6]
+                prepare(d, ["%s_module.cxx" % tag], ("none", "longer", "symlink")[ri])
                 r = tool_run("interrogate_module", margs, d, h, shuf)
                 res["n"] += 1
                 shas.append((h["name"], r.rc, sha(os.path.join(d, "%s_module.cxx" % tag))))
@@ -419,7 +493,9 @@ def run_check(ctx):
     tier = ctx.tier
 
     # ---- TLC --------------------------------------------------------------------------------
-    for cfg, what in (("Repro_unfixed", "without the tie-break"), ("Repro_pwd", "with a get_cwd() that trusts $PWD")):
+    for cfg, what in (("Repro_unfixed", "without the tie-break"), ("Repro_pwd", "with a get_cwd() that trusts $PWD"),
+                      ("Repro_epoch0", "with an epoch of 0 treated as unset"),
+                      ("Repro_notrunc", "with outputs overwritten in place")):
         r0 = tlc.run("ReproMC", cfg, workers=4, timeout=600)
         ctx.add_tlc(r0)
         if r0.verdict != "invariant" or r0.violated != "OutputPure":
@@ -538,6 +614,22 @@ def run_check(ctx):
                                   "the database of the same run" % (rr["be"], k, ic, idb), dict(lib=k, backend=rr["be"]))
                 if rr["be"] == "-python-native" and ic is None:
                     raise MachineryError("no file identifier found in python-native code of library %d" % k)
+        for xa, xb in res.get("extra", []):
+            n_cmp += 1
+            if xa["rc"] != 0 or xb["rc"] != 0:
+                raise MachineryError("interrogate failed with SOURCE_DATE_EPOCH=%r on library %d" % (xa["epoch"], k))
+            if xa["sha"] != xb["sha"]:
+                ctx.violation("interrogate %s on generated library %d with SOURCE_DATE_EPOCH=%r: %s differ between two "
+                              "runs more than a second apart (the second over existing, longer files)" % (
+                                  xa["be"], k, xa["epoch"], "/".join("-" + x for x in sorted(xa["sha"]) if xa["sha"][x] != xb["sha"][x])),
+                              dict(lib=k, runs=[xa, xb]))
+            want = str(c_atoi(xa["epoch"])).encode()
+            for rr in (xa, xb):
+                got = [rr["ident"]["od"]] + ([rr["ident"]["oc"]] if rr["ident"]["oc"] is not None else [])
+                if any(g != want for g in got):
+                    ctx.violation("interrogate %s on generated library %d with SOURCE_DATE_EPOCH=%r: file identifier %r, "
+                                  "expected %r" % (rr["be"], k, rr["epoch"], got, want), dict(lib=k, run=rr))
+                    break
         if res.get("absruns"):
             n_cmp += 1
             if any(rc != 0 or None in sh.values() for _, rc, sh in res["absruns"]):
@@ -568,6 +660,7 @@ def run_check(ctx):
     shas = []
     for ri in range(4):
         margs = ["-oc", "all_module.cxx", "-module", "vm", "-library", "vm", "-python-native"] + ins
+        prepare(alld, ["all_module.cxx"], ("none", "longer", "symlink", "shorter")[ri])
         r = tool_run("interrogate_module", margs, alld, hid[ri], shuf)
         shas.append((hid[ri]["name"], r.rc, sha(os.path.join(alld, "all_module.cxx"))))
         n_runs_total += 1
